@@ -323,8 +323,28 @@ def replay(path):
 # --- the check -------------------------------------------------------------------------------------------------------------
 
 
+def _sweep_stale_sandboxes(max_age_s=3600):
+    """remove disk images left behind by killed runs (tmpfs = memory)"""
+    from . import core
+
+    parent = os.path.join(core.SANDBOX_PARENT, "mhlsim")
+    try:
+        names = os.listdir(parent)
+    except OSError:
+        return
+    now = time.time()
+    for n in names:
+        p = os.path.join(parent, n)
+        try:
+            if now - os.stat(p).st_mtime > max_age_s:
+                shutil.rmtree(p, ignore_errors=True)
+        except OSError:
+            pass
+
+
 def check(pid, tier, verif_seed):
     t_start = time.time()
+    _sweep_stale_sandboxes()
     mod = load_prop(pid)
     cfg = mod.CONFIG
     count = int(os.environ.get("VERIF_RUNS", cfg[tier]["runs"]))
